@@ -11,6 +11,7 @@ import (
 	"time"
 
 	"servitor/verifshim/simexec"
+	"servitor/verifshim/simrt"
 )
 
 // UI sessions over a generated town. Racing pacing (C08): keys, poll ticks, loads and hook
@@ -223,12 +224,16 @@ func scenUI(r *Run, o uiOpts) {
 			switch t.Weighted(3, 4, 3) {
 			case 0: // act almost at once, while whatever is going on is still going on
 				for k := t.Draw(10); k > 0 && r.S.Steps() < stepCap; k-- {
-					r.S.Step(50 * time.Millisecond)
+					if r.S.Step(50*time.Millisecond) == simrt.Idle {
+						break
+					}
 					advance()
 				}
 			case 1: // act when the current loads have just finished (the poller keeps ticking)
 				for k := 0; k < 3000 && r.S.Steps() < stepCap; k++ {
-					r.S.Step(50 * time.Millisecond)
+					if r.S.Step(50*time.Millisecond) == simrt.Idle {
+						break
+					}
 					advance()
 					synctest.Wait()
 					if !r.S.Busy() && !busy() {
@@ -237,7 +242,9 @@ func scenUI(r *Run, o uiOpts) {
 				}
 			default:
 				for k := 10 + t.Draw(200); k > 0 && r.S.Steps() < stepCap; k-- {
-					r.S.Step(50 * time.Millisecond)
+					if r.S.Step(50*time.Millisecond) == simrt.Idle {
+						break
+					}
 					advance()
 				}
 			}
@@ -253,7 +260,9 @@ func scenUI(r *Run, o uiOpts) {
 			}
 		}
 		for busy() && r.S.Steps() < stepCap {
-			r.S.Step(50 * time.Millisecond)
+			if r.S.Step(50*time.Millisecond) == simrt.Idle {
+				break // nothing can happen any more although keys are still queued: judged below
+			}
 			advance()
 		}
 		// let it all play out, then stop the poller and require quiescence
